@@ -1,15 +1,14 @@
 (* C15 — the metadata states every configured descriptive attribute in well-formed TSDL.
 
    Proved:
-     * string escaping: for every string WITHOUT a new-line character, the literal the generator
-       writes ("\"" ++ escape_dq s ++ "\"", escape_dq translated from template.py) is read back
-       as s by a reader written from the CTF 1.8 string literal grammar;
-       the statement for ALL strings is refuted (new-line is copied raw, which the grammar
-       forbids): C15_escape_roundtrip_refuted -- replayed on the real code by the check;
+     * string escaping: for EVERY string, the literal the generator writes
+       ("\"" ++ escape_dq s ++ "\"", escape_dq translated from template.py on every run) is read
+       back as s by a reader written from the CTF 1.8 string literal grammar (new-line
+       characters are escaped since the fix: commit 6bd96cd in /repo);
      * emission guards (regenerated from the templates): every attribute line whose guards pass
        the computable adequacy check is emitted exactly when the attribute is configured;
-       all rows pass except `loglevel` (`{% if ert.log_level %}` drops level 0, S2):
-       C15_loglevel_guard_refuted -- replayed by the check;
+       all rows pass, `loglevel` included since the fix: commit of S2 in /repo
+       (C15_guards_adequate_all);
      * every quoted value either goes through escape_dq or is a UUID / identifier;
        every attribute the property names has a line in the templates.
    Validated (named): that the file as a whole parses under the TSDL grammar and that each stated
@@ -19,16 +18,11 @@ Import ListNotations.
 From BT.Front Require Import Prefix CTypes Escape EscapeProofs MetaAttrs MetaAttrsProofs.
 From BT.Gen Require Import PyFuns MetaGuards.
 
-Theorem C15_escape_roundtrip_partial :
-  forall s : str, ~ In 10%N s -> read_literal (quote (escape_dq s)) = Some s.
-Proof. exact escape_roundtrip_partial. Qed.
-Print Assumptions C15_escape_roundtrip_partial.
+Theorem C15_escape_roundtrip : forall s : str, read_literal (quote (escape_dq s)) = Some s.
+Proof. exact escape_roundtrip. Qed.
+Print Assumptions C15_escape_roundtrip.
 
-Theorem C15_escape_roundtrip_refuted : exists s : str, read_literal (quote (escape_dq s)) <> Some s.
-Proof. exact escape_roundtrip_refuted. Qed.
-Print Assumptions C15_escape_roundtrip_refuted.
-
-(* what a repaired escaping function achieves (the reader is not unreasonably strict) *)
+(* the reference escaping function *)
 Theorem C15_escape_spec_roundtrip : forall s : str, read_literal (quote (escape_spec s)) = Some s.
 Proof. exact escape_spec_roundtrip. Qed.
 Print Assumptions C15_escape_spec_roundtrip.
@@ -42,24 +36,15 @@ Theorem C15_guards_adequate : forall rows,
 Proof. exact guards_adequate. Qed.
 Print Assumptions C15_guards_adequate.
 
-(* obligation on the regenerated rows: all rows except event/loglevel pass *)
-Theorem C15_guards_adequate_partial :
-  forall r, In r rows_but_loglevel -> forall val, vals_in_kind r val ->
+(* obligation on the regenerated rows: every attribute line of the templates, loglevel included
+   (level 0 is stated: `{% if ert.log_level is not none %}`) *)
+Theorem C15_guards_adequate_all :
+  forall r, In r meta_rows -> forall val, vals_in_kind r val ->
     ((forall g, In g (r_guards r) -> configured (kind_of_expr (guard_expr g)) (val (guard_expr g)) = true) ->
      row_emitted r val = true) /\
     (row_emitted r val = true -> forall g, In g (r_guards r) -> is_none (val (guard_expr g)) = false).
-Proof. exact guards_adequate_partial. Qed.
-Print Assumptions C15_guards_adequate_partial.
-
-(* S2: log level 0 is configured, must be stated, and is not *)
-Theorem C15_loglevel_guard_refuted :
-  exists r g, In r meta_rows /\ In g (r_guards r) /\
-              r_block r = s2l "event" /\ r_attr r = s2l "loglevel" /\ guard_expr g = s2l "ert.log_level" /\
-              in_kind (kind_of_expr (guard_expr g)) (PInt 0) = true /\
-              configured (kind_of_expr (guard_expr g)) (PInt 0) = true /\
-              guard_passes g (PInt 0) = false.
-Proof. exact loglevel_guard_refuted. Qed.
-Print Assumptions C15_loglevel_guard_refuted.
+Proof. exact guards_adequate_all. Qed.
+Print Assumptions C15_guards_adequate_all.
 
 Theorem C15_quoted_values_escaped : all_quoted_ok meta_rows = true.
 Proof. exact meta_rows_quoted_ok. Qed.
